@@ -45,8 +45,35 @@ pub fn make_histories_sized(seed: u64, n: usize, maxdim: usize, maxextra: u64) -
             tr = tr.wrapping_add(1);
             let mut cfg = gen_cfg(&mut rng, flavour, w, h);
             cfg.tr = tr;
-            match rng.below(10) {
+            match rng.below(12) {
                 0 => calls.push(failing_input(&mut rng, &cfg)),
+                10 | 11 => {
+                    // a picture with an invalid macroblock header / coded-block pattern at a random macroblock
+                    // (drives the error-recovery paths, which differ between the two bitstream flavours)
+                    let mut p = if have_ref && rng.chance(1, 2) {
+                        gen_inter(&mut rng, &cfg, &InterCfg { ptype: 0, big_vectors_pct: 20, residual_pct: 30, truncate: None, allow_q: true })
+                    } else {
+                        gen_intra(&mut rng, &cfg)
+                    };
+                    let intra_pic = p.is_intra_picture();
+                    let m = rng.below(p.mbs.len().max(1) as u64) as usize;
+                    if !p.mbs.is_empty() {
+                        p.mbs[m] = if rng.chance(1, 2) {
+                            crate::model::syntax::SymMb::Raw(vec![(0, if intra_pic { 9 } else { 10 }), (0x2aa, 10)])
+                        } else {
+                            let mut g = vec![];
+                            if !intra_pic {
+                                g.push((0, 1));
+                                g.push(crate::model::tables::MCBPC_P[0][0]);
+                            } else {
+                                g.push(crate::model::tables::MCBPC_I[0][0]);
+                            }
+                            g.push((0b000001, 6));
+                            crate::model::syntax::SymMb::Raw(g)
+                        };
+                    }
+                    calls.push(p.encode());
+                }
                 1 | 2 if have_ref => {
                     let disp = sorenson && rng.chance(1, 2);
                     calls.push(vector_field_picture(&mut rng, &cfg, disp).encode());
@@ -114,6 +141,12 @@ pub fn digest_main(args: &[String]) -> i32 {
     let seed: u64 = args.first().and_then(|s| s.parse().ok()).unwrap_or(1);
     let n: usize = args.get(1).and_then(|s| s.parse().ok()).unwrap_or(8);
     let hists = make_histories(seed, n);
+    if let Some(k) = args.get(2).and_then(|s| s.parse::<usize>().ok()) {
+        // isolated baseline: this process decodes history k only
+        let b = baseline(&hists[k..k + 1]);
+        println!("{}", b[0].iter().map(|d| format!("{:016x}", d)).collect::<Vec<_>>().join(","));
+        return 0;
+    }
     println!("{}", digest_string(&baseline(&hists)));
     0
 }
@@ -151,6 +184,41 @@ pub fn run(ctx: &Ctx) -> (Report, String) {
                 }
                 other => rep.inconclusive.push(format!("could not run the digest subprocess: {:?}", other.map(|o| o.status))),
             }
+        }
+    }
+    // isolation: every history decoded alone in its own fresh process must give what the in-process
+    // pass gave while other instances (of both bitstream flavours) had been active before it
+    if !miri {
+        let exe = std::env::current_exe().unwrap();
+        let iso: Vec<Option<Vec<u64>>> = crate::util::par_shards(n_hist, ctx.threads, |k| {
+            let o = std::process::Command::new(&exe).args(["digest17", &ctx.seed.to_string(), &n_hist.to_string(), &k.to_string()]).output().ok()?;
+            if !o.status.success() {
+                return None;
+            }
+            String::from_utf8_lossy(&o.stdout).trim().split(',').map(|h| u64::from_str_radix(h, 16).ok()).collect()
+        });
+        for (k, v) in iso.iter().enumerate() {
+            match v {
+                None => rep.inconclusive.push(format!("isolated baseline process for history {} failed", k)),
+                Some(d) if *d != base[k] => {
+                    let call = d.iter().zip(base[k].iter()).position(|(a, b)| a != b).unwrap_or(0);
+                    rep.violation(
+                        "instance-influence/isolated-vs-in-process",
+                        format!("history {} (sorenson={}) call {}: decoded alone in a fresh process it gives a different result than in a process where other decoder instances had run before it; input {}", k, hists[k].sorenson, call, hex(&hists[k].calls[call][..hists[k].calls[call].len().min(32)])),
+                        J::obj().set("property", "C17").set("seed", ctx.seed).set("history", k),
+                    );
+                }
+                Some(_) => rep.count("isolated_baselines_equal"),
+            }
+        }
+        // and in reverse order within this process (an order-dependent cache shows here too)
+        let rev: Vec<Hist> = hists.iter().rev().cloned().collect();
+        let mut b2 = baseline(&rev);
+        b2.reverse();
+        if b2 != base {
+            rep.violation("instance-influence/order-dependent", "decoding the histories in reverse order on fresh instances changed some results".to_string(), J::obj().set("property", "C17").set("seed", ctx.seed));
+        } else {
+            rep.count("reverse_order_pass_equal");
         }
     }
     // concurrent replicas
@@ -262,6 +330,8 @@ pub fn run(ctx: &Ctx) -> (Report, String) {
         rep.require("overlapping_call_pairs", 1000);
         rep.require("distinct_interleaving_signatures", 10);
         rep.require("fresh_process_digests_equal", 2);
+        rep.require("isolated_baselines_equal", n_hist as u64);
+        rep.require("reverse_order_pass_equal", 1);
     }
     let _ = Tier::Quick;
     (rep, rule())
